@@ -181,6 +181,7 @@ int g_v11, g_v12, g_v21, g_v22;           /* the values, in table order */
 #define V1(t) ((t)->values)
 #define V2(t) NV((t)->values)
 WITNESS(pcf_close);
+int w_nt, w_nv1, w_nv2;
 int c_pcf_close(struct pcf *pcf)
 __CPROVER_requires(__CPROVER_is_fresh(pcf, sizeof(struct pcf)))
 __CPROVER_requires(T1(pcf) == NULL || (__CPROVER_is_fresh(T1(pcf), TSZ) && VCHAIN2(T1(pcf)->values) &&
@@ -192,6 +193,8 @@ __CPROVER_requires(g_nt < 1 || g_nv1 < 1 || g_v11 == V1(T1(pcf))->value)
 __CPROVER_requires(g_nt < 1 || g_nv1 < 2 || g_v12 == V2(T1(pcf))->value)
 __CPROVER_requires(g_nt < 2 || g_nv2 < 1 || g_v21 == V1(T2(pcf))->value)
 __CPROVER_requires(g_nt < 2 || g_nv2 < 2 || g_v22 == V2(T2(pcf))->value)
+/* witnesses for the native replay driver: the shape of the table */
+__CPROVER_requires(w_nt == (int) g_nt && w_nv1 == (int) (g_nt < 1 ? 0u : g_nv1) && w_nv2 == (int) (g_nt < 2 ? 0u : g_nv2))
 /* the palette pointer is a (non-const) global initialised to the default palette */
 __CPROVER_requires(__CPROVER_pointer_equals(pcf_palette, (const uint32_t *) pcf_def_palette))
 __CPROVER_requires(g_seq == 0 && g_type_n == 0 && g_val_n == 0 && g_col_n == 0 && g_misc_n == 0 && g_bad_n == 0 && g_close_n == 0 && g_the_f == pcf->f)
